@@ -194,10 +194,14 @@ def _sizes(ctx, reqs, pending):
         nR, nC = -(-R // tr), -(-C // tc)
         out = np.full((nR * tr, nC * tc), -1, dtype=np.int64)
         bad = None
-        for (ro, co) in g:
+        # the library's own composition (as in the Segmentation constructor): cut at the offsets compute_tile_positions_per_frame lists
+        for (ro, co) in (offs if offs is not None else g):
             st, t = _fetch(spatial.get_tile_array, M, ro, co, tr, tc)
             if st == 'err' or t.shape != (tr, tc):
                 bad = {'row_offset': ro, 'column_offset': co, 'result': t if st == 'err' else list(t.shape)}
+                break
+            if ro - 1 + tr > out.shape[0] or co - 1 + tc > out.shape[1]:
+                bad = {'row_offset': ro, 'column_offset': co, 'result': 'tile outside the padded matrix'}
                 break
             out[ro - 1:ro - 1 + tr, co - 1:co - 1 + tc] = t
         ctx.case(helper='get_tile_array', nontrivial_key=('cut', R, C, tr, tc) if multi else None)
@@ -208,9 +212,10 @@ def _sizes(ctx, reqs, pending):
         elif not np.array_equal(out, want):
             ctx.fail(case, {'helper': 'get_tile_array', 'what': 'pasting the tiles back does not reproduce the zero-padded matrix'},
                      site='get_tile_array')
-        if bad is None and (max(R, C) <= 6 or k % 97 == 0):
+        if max(R, C) <= 6 or k % 97 == 0:
             reqs.append(('cutPaste', {'M': M.tolist(), 'R': R, 'C': C, 'tr': tr, 'tc': tc}))
-            pending.append((case, 'get_tile_array cut and paste', ('ok', {'shape': list(out.shape), 'data': out.tolist()}), 'plain'))
+            pending.append((case, 'get_tile_array cut and paste',
+                            ('ok', {'shape': list(out.shape), 'data': out.tolist()}) if bad is None else ('err', str(bad)), 'plain'))
         if len(reqs) > 40000:
             _settle(ctx, reqs, pending)
             reqs.clear()
